@@ -557,7 +557,186 @@ def rule_r9(ctx) -> RuleResult:
     return rr
 
 
+NORMALISERS = {"normalize", "unescape", "unquote", "unquote_plus", "quote", "quote_plus", "strip", "lstrip", "rstrip", "casefold",
+               "translate", "expandtabs", "sub", "encode", "decode"}
+# replacements that only the reader applies, with the reason they are tolerated
+READER_ONLY_REPLACE = {("_", " "): "Lua code writes module names with underscores (comment in get_page); its one bad consequence is the C20.R1 known finding"}
+
+
+def rule_r11(ctx, sf: SqlFacts) -> RuleResult:
+    """Writer and reader normalise titles the same way: a normalising operation (Unicode
+    normalisation, unescaping, unquoting, stripping, case folding, regex substitution, a literal
+    replacement) applied to the value that reaches the SQL statement in one of add_page/get_page
+    and not in the other makes the reader look for a key the writer never stored."""
+    rr = RuleResult("C10.R11", "add_page and get_page apply the same normalising operations to the title", min_instances=1)
+    ops = {}
+    for fnname in ("core.Wtp.get_page", "core.Wtp.add_page"):
+        fn = ctx.fn(fnname)
+        stmts = [s_ for s_ in sf.in_function(fnname) if s_.table == "pages" and s_.bound is not None]
+        assigns: dict = {}
+        for n in walk_no_nested(fn):
+            if isinstance(n, ast.Assign):
+                for t in n.targets:
+                    if isinstance(t, ast.Name):
+                        assigns.setdefault(t.id, []).append(n.value)
+            elif isinstance(n, (ast.AnnAssign, ast.AugAssign)) and isinstance(n.target, ast.Name) and n.value is not None:
+                assigns.setdefault(n.target.id, []).append(n.value)
+            elif isinstance(n, ast.Call) and isinstance(n.func, ast.Attribute) and n.func.attr in ("append", "extend", "insert") \
+                    and isinstance(n.func.value, ast.Name):
+                for a in n.args:
+                    assigns.setdefault(n.func.value.id, []).append(a)
+        seen, work, found = set(), [], {}
+        for s_ in stmts:
+            # only the title-typed positions matter: follow every name bound into the statement
+            work.extend(x.id for x in ast.walk(s_.bound) if isinstance(x, ast.Name))
+        while work:
+            v = work.pop()
+            if v in seen:
+                continue
+            seen.add(v)
+            for e in assigns.get(v, []):
+                for c in ast.walk(e):
+                    if isinstance(c, ast.Call) and isinstance(c.func, ast.Attribute):
+                        if c.func.attr in NORMALISERS:
+                            found.setdefault(c.func.attr, c)
+                        elif c.func.attr == "replace" and len(c.args) == 2 and all(isinstance(a, ast.Constant) for a in c.args):
+                            found.setdefault(("replace", c.args[0].value, c.args[1].value), c)
+                work.extend(x.id for x in ast.walk(e) if isinstance(x, ast.Name))
+        ops[fnname] = found
+    g, a = ops["core.Wtp.get_page"], ops["core.Wtp.add_page"]
+    for k in sorted(set(g) | set(a), key=str):
+        if k in g and k in a:
+            rr.ok("core.Wtp.get_page", "{} in both".format(k), {"op": str(k)})
+            continue
+        if isinstance(k, tuple) and (k[1], k[2]) in READER_ONLY_REPLACE and k in g:
+            rr.ok("core.Wtp.get_page", "reader-only replace {!r}->{!r}: {}".format(k[1], k[2], READER_ONLY_REPLACE[(k[1], k[2])][:60]), {"op": str(k)})
+            continue
+        where, node = ("core.Wtp.get_page", g[k]) if k in g else ("core.Wtp.add_page", a[k])
+        rr.bad(Finding("C10.R11", CORE, where, unparse(node)[:80],
+                       "{} normalises the title with `{}` but {} does not: pages stored under a title this operation changes "
+                       "can no longer be found (or are stored under a key no lookup produces)".format(
+                           where.split(".")[-1], unparse(node)[:50], "add_page" if k in g else "get_page"), node.lineno))
+    if not g and not a:
+        rr.ok("core.Wtp.get_page", "no normalising operation in either function")
+    return rr
+
+
+def rule_r12(ctx, sf: SqlFacts) -> RuleResult:
+    """Sibling agreement among the writers of table `pages`: in-memory state that one writer keeps
+    in step with the table (a memo, a set of marked titles, a cache of bodies) must be kept in step
+    by every writer -- add_page resets need_pre_expand and replaces the body, so a mirror that only
+    set_template_pre_expand() updates is stale after the next add_page()."""
+    from . import c09
+
+    rr = RuleResult("C10.R12", "every writer of `pages` maintains the same in-memory mirrors of the table", min_instances=3)
+    writers = sorted({s_.function for s_ in sf.statements if s_.table == "pages" and s_.writes and s_.function.startswith("core.Wtp.")})
+    if len(writers) < 3:
+        raise AnalysisError("fewer than 3 writers of `pages` found (add_page, set_template_pre_expand, analyze_templates confirmed by hand)")
+    touched = {}
+    for w in writers:
+        fn = ctx.fn(w)
+        attrs = {a for a, n, k in c09._mutations(fn, True, False)}
+        for c in ast.walk(fn):
+            if isinstance(c, ast.Call) and isinstance(c.func, ast.Attribute) and c.func.attr in ("cache_clear",) \
+                    and isinstance(c.func.value, ast.Attribute):
+                attrs.add(c.func.value.attr + ".cache_clear")
+        # a writer that calls another writer inherits what that one maintains
+        for c in ast.walk(fn):
+            if isinstance(c, ast.Call) and isinstance(c.func, ast.Attribute) and "core.Wtp." + c.func.attr in writers:
+                attrs.add("->" + c.func.attr)
+        touched[w] = attrs
+    for w in writers:
+        for a in list(touched[w]):
+            if a.startswith("->"):
+                touched[w] |= {x for x in touched["core.Wtp." + a[2:]] if not x.startswith("->")}
+    union = {a for v in touched.values() for a in v if not a.startswith("->")}
+    for w in writers:
+        missing = sorted(union - touched[w])
+        if missing:
+            others = sorted(x.split(".")[-1] for x in writers if set(missing) & touched[x])
+            rr.bad(Finding("C10.R12", CORE, w, "{} does not update {}".format(w.split(".")[-1], ", ".join(missing)),
+                           "{} keep(s) `{}` in step with table `pages`, this writer does not: after it runs the in-memory copy and the "
+                           "table disagree (e.g. a title still counted as marked although add_page reset its flag)".format(
+                               ", ".join(others), ", ".join(missing)), ctx.fn(w).lineno))
+        else:
+            rr.ok(w, "maintains " + (", ".join(sorted(union)) or "nothing"), {"writer": w, "mirrors": sorted(union)})
+    return rr
+
+
+def _memo_returning(ctx) -> set:
+    """dotted names of functions that hand out an object owned by a memo: functions decorated with
+    lru_cache/cache, and functions every/any return of which is (a name bound to) a call of one"""
+    memo = set()
+    for dotted, m, f in ctx.index.all_functions():
+        if any(("lru_cache" in unparse(d)) or unparse(d) in ("cache", "functools.cache") for d in f.decorator_list):
+            memo.add(dotted)
+    names = {d.split(".")[-1] for d in memo}
+    changed = True
+    while changed:
+        changed = False
+        for dotted, m, f in ctx.index.all_functions():
+            if dotted in memo:
+                continue
+            bound = set()
+            for n in walk_no_nested(f):
+                if isinstance(n, ast.Assign) and len(n.targets) == 1 and isinstance(n.targets[0], ast.Name) and isinstance(n.value, ast.Call) \
+                        and isinstance(n.value.func, ast.Attribute) and n.value.func.attr in names:
+                    bound.add(n.targets[0].id)
+            for r in walk_no_nested(f):
+                if isinstance(r, ast.Return) and r.value is not None:
+                    v = r.value
+                    if (isinstance(v, ast.Call) and isinstance(v.func, ast.Attribute) and v.func.attr in names) or \
+                            (isinstance(v, ast.Name) and v.id in bound):
+                        memo.add(dotted)
+                        names.add(dotted.split(".")[-1])
+                        changed = True
+                        break
+    return memo
+
+
+def rule_r10(ctx) -> RuleResult:
+    """What a memoised reader returns is the memo's own object: the next lookup with the same
+    arguments gets the very same object back.  So nothing may assign to (or mutate) a field of a
+    value obtained from get_page() or from a helper that passes its result on -- otherwise a
+    lookup returns text that was never stored (stripped, preprocessed, with another page's cookies)."""
+    rr = RuleResult("C10.R10", "objects handed out by the memoised page lookup are never modified", min_instances=5)
+    memo = _memo_returning(ctx)
+    names = {d.split(".")[-1] for d in memo}
+    rr.instances["memo_returning_functions"] = sorted(memo)
+    for dotted, m, f in ctx.index.all_functions():
+        bound = {}
+        for n in walk_no_nested(f):
+            tgt = val = None
+            if isinstance(n, ast.Assign) and len(n.targets) == 1 and isinstance(n.targets[0], ast.Name):
+                tgt, val = n.targets[0].id, n.value
+            elif isinstance(n, ast.AnnAssign) and isinstance(n.target, ast.Name) and n.value is not None:
+                tgt, val = n.target.id, n.value
+            elif isinstance(n, ast.NamedExpr) and isinstance(n.target, ast.Name):
+                tgt, val = n.target.id, n.value
+            if tgt and isinstance(val, ast.Call) and isinstance(val.func, ast.Attribute) and val.func.attr in names:
+                bound.setdefault(tgt, n)
+        if not bound:
+            continue
+        hit = False
+        for n in walk_no_nested(f):
+            tgs = n.targets if isinstance(n, ast.Assign) else [n.target] if isinstance(n, (ast.AugAssign, ast.AnnAssign)) else []
+            for t in tgs:
+                base = t
+                while isinstance(base, (ast.Attribute, ast.Subscript)):
+                    base = base.value
+                    if isinstance(base, ast.Name) and base.id in bound and t is not base and isinstance(t, (ast.Attribute, ast.Subscript)):
+                        hit = True
+                        rr.bad(Finding("C10.R10", m.relpath, dotted, unparse(n)[:80],
+                                       "`{}` was obtained from the memoised page lookup (`{}`); this statement changes the memo's own object, so "
+                                       "later lookups with the same arguments return the changed text instead of what was stored".format(
+                                           base.id, unparse(bound[base.id].value)[:50]), n.lineno))
+                        break
+        if not hit:
+            rr.ok(dotted, "uses {} read-only".format(", ".join(sorted(bound))), {"fn": dotted, "values": sorted(bound)})
+    return rr
+
+
 def run(ctx) -> list:
     sf = SqlFacts(ctx.index)
     return [rule_r1(ctx, sf), rule_r2(ctx, sf), rule_r3(ctx, sf), rule_r4(ctx, sf), rule_r5(ctx, sf), rule_r6(ctx, sf),
-            rule_r7(ctx, sf), rule_r8(ctx), rule_r9(ctx)]
+            rule_r7(ctx, sf), rule_r8(ctx), rule_r9(ctx), rule_r10(ctx), rule_r11(ctx, sf), rule_r12(ctx, sf)]
